@@ -55,6 +55,43 @@ def literal_space(logic, s):
     return [(s, None), (~s, None)]
 
 
+def distinct_copy(s):
+    '''The same sentence built from scratch with the item cache emptied before
+    every constructor call: equal lexical items inside it (the two constants of
+    `a = a`) and across nodes are *distinct objects*, as after a roll-over of the
+    library's bounded item cache.'''
+    from engine import lexsym
+    from pytableaux.lang import Operated, Predicated, Quantified
+
+    def mk(x):
+        t = type(x).__name__
+        if t in ('Atomic', 'Constant', 'Variable'):
+            lexsym.reset_cache()
+            return type(x)(*x.spec)
+        if t == 'Predicate':
+            if x.is_system:
+                return x
+            lexsym.reset_cache()
+            return type(x)(*x.spec)
+        if t == 'Predicated':
+            params = tuple(mk(p_) for p_ in x.params)
+            pred = mk(x.predicate)
+            lexsym.reset_cache()
+            return Predicated(pred, params)
+        if t == 'Quantified':
+            v = mk(x.variable)
+            body = mk(x.sentence)
+            lexsym.reset_cache()
+            return Quantified(x.quantifier, v, body)
+        ops = tuple(mk(o) for o in x.operands)
+        lexsym.reset_cache()
+        return Operated(x.operator, ops)
+    out = mk(s)
+    lexsym.reset_cache()
+    assert out == s and hash(out) == hash(s)
+    return out
+
+
 def run_branch(logic, nodes):
     reset_order()
     tab = Tableau(logic)
@@ -145,6 +182,18 @@ def logic_unit(name):
                                     for i in order])[1])
                         solo_tab, solo = run_branch(logic, [
                             sdwnode(all_lits[i][0][0], all_lits[i][0][1], all_lits[i][1]) for i in orders[0]])
+                        # closure must depend on the literals' values, not on object identity
+                        _, solo_d = run_branch(logic, [
+                            sdwnode(distinct_copy(all_lits[i][0][0]), all_lits[i][0][1], all_lits[i][1])
+                            for i in orders[0]])
+                        out['runs'] += 1
+                        if bool(solo_d.closed) != bool(solo.closed):
+                            out['bad'].append(dict(
+                                kind='closure', sentence_kind=kname + '/distinct-objects',
+                                literals=[[str(all_lits[i][0][0]), all_lits[i][0][1], all_lits[i][1]] for i in orders[0]],
+                                closed=bool(solo_d.closed), satisfiable=bool(solo_d.closed), distinct=True,
+                                spec=[[list(_ident(all_lits[i][0][0])), all_lits[i][0][1], all_lits[i][1]]
+                                      for i in orders[0]]))
                         if bool(solo.closed) != bool(branches[0].closed):
                             out['bad'].append(dict(
                                 kind='closure', sentence_kind=kname,
@@ -258,7 +307,8 @@ def run(ctx):
             else:
                 what = f'{r["logic"]}: model read from open literal set {b["literals"]}: {b["detail"]}'
             rep.violation(key, what, dict(kind=b['kind'], logic=r['logic'], lits=b['spec'],
-                                          expect_satisfiable=b.get('satisfiable')))
+                                          expect_satisfiable=b.get('satisfiable'),
+                                          distinct=b.get('distinct', False)))
     rep.coverage = dict(
         obligations=sets, discharged=sets - bad_total,
         checker_cmd=f'z3 {z3.get_version_string()} (python API)',
@@ -266,7 +316,8 @@ def run(ctx):
         real_branch_runs=runs, model_builder_value_checks=model_checks, logics=len(results),
         bounds='one sentence per literal set (letter / predication / uninterpreted; self-identity '
                'and existence in the classical family, alone and next to an unrelated literal); '
-               '<= 2 worlds; all subsets, all insertion orders',
+               '<= 2 worlds; all subsets, all insertion orders; each set once more with every lexical item '
+               'a distinct object (item cache emptied between constructor calls)',
         functions_encoded=['closure rules of each logic (run)', 'BranchTarget/BranchValueHook (run)',
                            'BaseModel.read_branch/_read_node (run)', 'Model.value_of (run)'],
         file_hashes=file_hashes(FILES), solver=stats.asdict(), samples=samples[:6],
@@ -286,7 +337,7 @@ def replay(data):
     def tup(x):
         return tuple(tup(y) for y in x) if isinstance(x, list) else x
     lits = [(Sentence(tup(i)), d, w) for i, d, w in data['lits']]
-    nodes = [sdwnode(s, d, w) for s, d, w in lits]
+    nodes = [sdwnode(distinct_copy(s) if data.get('distinct') else s, d, w) for s, d, w in lits]
     tab, branch = run_branch(logic, nodes)
     closed = bool(branch.closed)
     # brute-force satisfiability in the specification semantics (plain Python)
